@@ -106,12 +106,14 @@ func (c *child) planHostile() (int, func(int)) {
 				return hostileInput{data: out, kind: kind, where: name + "/" + region(seed, off), detail: fmt.Sprintf("seed=%s off=%d", name, off)}, true
 			}})
 		}
+		c.prepTick("line mutations of " + name)
 		lm := lineMutations(seed)
 		segs = append(segs, segment{name: "line-mutations/" + name, count: len(lm), enumerated: true, gen: func(i int) (hostileInput, bool) {
-			if bytes.Equal(lm[i].out, seed) {
+			out := lm[i].out()
+			if bytes.Equal(out, seed) {
 				return hostileInput{}, false
 			}
-			return hostileInput{data: lm[i].out, kind: lm[i].kind, where: name, detail: "seed=" + name}, true
+			return hostileInput{data: out, kind: lm[i].kind, where: name, detail: "seed=" + name}, true
 		}})
 	}
 	depths := []int{1, 10, 100, 300, 1000}
@@ -119,19 +121,19 @@ func (c *child) planHostile() (int, func(int)) {
 		d := depths[i/2]
 		return hostileInput{data: deepNest(d, i%2 == 1), kind: "deep-nest", where: strconv.Itoa(d), detail: fmt.Sprintf("depth=%d map=%v", d, i%2 == 1)}, true
 	}})
-	segs = append(segs, segment{name: "splices", count: kit.Scale(3000, 40000), gen: func(i int) (hostileInput, bool) {
+	segs = append(segs, segment{name: "splices", count: kit.Scale(3000, 25000), gen: func(i int) (hostileInput, bool) {
 		r := kit.CaseRand("splice", i)
 		a, b := r.Intn(len(seeds)), r.Intn(len(seeds))
 		x, y := r.Intn(len(seeds[a])+1), r.Intn(len(seeds[b])+1)
 		out := append(append([]byte(nil), seeds[a][:x]...), seeds[b][y:]...)
 		return hostileInput{data: out, kind: "splice", where: names[a] + "/" + region(seeds[a], x) + "+" + names[b] + "/" + region(seeds[b], y)}, true
 	}})
-	segs = append(segs, segment{name: "garbage", count: kit.Scale(10000, 150000), gen: func(i int) (hostileInput, bool) {
+	segs = append(segs, segment{name: "garbage", count: kit.Scale(10000, 100000), gen: func(i int) (hostileInput, bool) {
 		r := kit.CaseRand("garbage", i)
 		out, kind := genGarbage(r)
 		return hostileInput{data: out, kind: kind, where: "-"}, true
 	}})
-	segs = append(segs, segment{name: "mutated-streams", count: kit.Scale(2500, 40000), gen: func(i int) (hostileInput, bool) {
+	segs = append(segs, segment{name: "mutated-streams", count: kit.Scale(2500, 25000), gen: func(i int) (hostileInput, bool) {
 		r := kit.CaseRand("mstream", i)
 		var buf bytes.Buffer
 		k := 2 + r.Intn(2)
